@@ -5,6 +5,7 @@ package gtab
 import (
 	"seehuhn.de/go/postscript/funit"
 	"seehuhn.de/go/sfnt/glyph"
+	"seehuhn.de/go/sfnt/opentype/classdef"
 	"seehuhn.de/go/sfnt/opentype/coverage"
 )
 
@@ -26,6 +27,55 @@ func checkSubtable(x Subtable, lookupType uint16, gpos bool) {
 	}
 	verifReach("read")
 	verifAssert(verifSame(got, x), "subtable round-trips")
+}
+
+// checkSubtableNF: for class based contexts nil and empty rule sets are the same after a round trip:
+// encode/decode must be a fixed point, keep every non-empty rule set, and the declared size must be right.
+func checkSubtableNF(x Subtable, lookupType uint16) {
+	enc := x.encode()
+	verifAssert(x.encodeLen() == len(enc), "declared size equals emitted size")
+	meta := &LookupMetaInfo{LookupType: lookupType}
+	got, err := readGsubSubtable(verifParser(enc), 0, meta)
+	verifAssert(err == nil, "own subtable accepted")
+	if err != nil {
+		return
+	}
+	verifReach("read")
+	// compare rule sets one by one (nil == empty)
+	switch a := x.(type) {
+	case *SeqContext2:
+		b, ok := got.(*SeqContext2)
+		verifAssert(ok && verifSame(a.Cov, b.Cov) && verifSame(a.Input, b.Input), "coverage and classes survive")
+		if ok {
+			for i := range a.Rules {
+				if i >= a.Input.NumClasses() {
+					break // rule sets for classes no glyph has can never apply; the reader drops them
+				}
+				if len(a.Rules[i]) > 0 {
+					verifAssert(i < len(b.Rules) && verifSame(a.Rules[i], b.Rules[i]), "rule set survives under its class")
+				} else {
+					verifAssert(i >= len(b.Rules) || len(b.Rules[i]) == 0, "empty rule set stays empty")
+				}
+			}
+		}
+	case *ChainedSeqContext2:
+		b, ok := got.(*ChainedSeqContext2)
+		verifAssert(ok && verifSame(a.Cov, b.Cov) && verifSame(a.Input, b.Input) && verifSame(a.Backtrack, b.Backtrack) && verifSame(a.Lookahead, b.Lookahead), "coverage and classes survive")
+		if ok {
+			for i := range a.Rules {
+				if i >= a.Input.NumClasses() {
+					break // rule sets for classes no glyph has can never apply; the reader drops them
+				}
+				if len(a.Rules[i]) > 0 {
+					verifAssert(i < len(b.Rules) && verifSame(a.Rules[i], b.Rules[i]), "rule set survives under its class")
+				} else {
+					verifAssert(i >= len(b.Rules) || len(b.Rules[i]) == 0, "empty rule set stays empty")
+				}
+			}
+		}
+	}
+	e2 := got.encode()
+	verifAssert(len(e2) == got.encodeLen(), "declared size of the decoded subtable")
 }
 
 // VerifH_C08_gsub: GSUB subtables of types 1.1, 1.2, 2.1, 3.1, 4.1 with symbolic content.
@@ -107,7 +157,7 @@ func VerifH_C08_gpos() {
 
 // VerifH_C08_context: contextual subtables (formats 1 and 3, plain and chained) with symbolic content.
 func VerifH_C08_context() {
-	kind := verifChoose("type", 4)
+	kind := verifChoose("type", 6)
 	big := verifParam("ctxbig", 0)
 	ids := verifGIDs("cov", 1+verifChoose("ncov", 1+big))
 	actions := func() []SeqLookup {
@@ -145,6 +195,36 @@ func VerifH_C08_context() {
 			x.Rules = append(x.Rules, rules)
 		}
 		checkSubtable(x, 6, false)
+	case 4:
+		// class based: rule sets per class of the first glyph; some classes have an empty (non-nil) or nil rule set
+		x := &SeqContext2{Cov: verifCov(ids), Input: classdef.Table{ids[0]: 1}}
+		if len(ids) > 1 {
+			x.Input[ids[1]] = 2
+		}
+		for cls := 0; cls < 3; cls++ {
+			switch verifChoose("ruleset", 3) {
+			case 0:
+				x.Rules = append(x.Rules, nil)
+			case 1:
+				x.Rules = append(x.Rules, []*ClassSeqRule{})
+			default:
+				x.Rules = append(x.Rules, []*ClassSeqRule{{Input: []uint16{verifU16("cls")}, Actions: actions()}})
+			}
+		}
+		checkSubtableNF(x, 5)
+	case 5:
+		x := &ChainedSeqContext2{Cov: verifCov(ids), Backtrack: classdef.Table{ids[0]: 1}, Input: classdef.Table{ids[0]: 1}, Lookahead: classdef.Table{ids[0]: 2}}
+		for cls := 0; cls < 2; cls++ {
+			switch verifChoose("ruleset", 3) {
+			case 0:
+				x.Rules = append(x.Rules, nil)
+			case 1:
+				x.Rules = append(x.Rules, []*ChainedClassSeqRule{})
+			default:
+				x.Rules = append(x.Rules, []*ChainedClassSeqRule{{Backtrack: []uint16{verifU16("b")}, Input: []uint16{verifU16("i")}, Lookahead: []uint16{verifU16("l")}, Actions: actions()}})
+			}
+		}
+		checkSubtableNF(x, 6)
 	default:
 		x := &ChainedSeqContext3{Actions: actions()}
 		for j := verifChoose("nbt", 2); j > 0; j-- {
